@@ -65,6 +65,17 @@ Theorem C02_deb_control_states_identity : forall archtab i k, control_single_lin
 Proof. exact deb_control_states_identity. Qed.
 Print Assumptions C02_deb_control_states_identity.
 
+(* ipk: the same two facts for the control text of an ipk (fields in opkg's alphabetical order, reserved custom
+   fields filtered out) *)
+Theorem C02_ipk_control_is_field_text : forall archtab i k, ipk_control archtab i k = d_write (ipk_fields_list archtab i k).
+Proof. exact ipk_control_is_field_text. Qed.
+Print Assumptions C02_ipk_control_is_field_text.
+
+Theorem C02_ipk_control_reads_back : forall archtab i k, forallb wf_dfield (ipk_fields_list archtab i k) = true ->
+  d_read (ipk_control archtab i k) = Some (map kv_of (ipk_fields_list archtab i k)).
+Proof. exact ipk_control_reads_back. Qed.
+Print Assumptions C02_ipk_control_reads_back.
+
 (* the premise is satisfiable, with relations, a multi-line description and a custom field *)
 Example C02_control_example :
   let i := {| mi_s := [(B "name", B "foo"); (B "version", B "1.2.3"); (B "prerelease", B "rc1"); (B "release", B "2");
